@@ -412,13 +412,17 @@ def c11(ctx, rep):
     fp = A.paths(f)
     num_p = ("param", f.params[1])
     n_int = ("call", ("builtin", "int"), (num_p,), ())
-    returns = [pp for pp in fp.paths if pp.kind == "return"]
-    falls = [pp for pp in fp.paths if pp.kind == "fall"]
+    returns = [pp for pp in fp.paths if pp.kind == "return" and not (pp.returned() == ("const", None) and not any(t[0] == "inloop" for t, _pol, _n in pp.conds))]
+    falls = [pp for pp in fp.paths if pp.kind == "fall" or (pp.kind == "return" and pp not in returns)]
     raises = [pp for pp in fp.paths if pp.kind == "raise"]
     rep.ob("C11.returns", f.name, len(returns) >= 1, "returning paths: %d" % len(returns), where(f))
     guard_ok = False
     for pp in raises:
-        for t, pol, _ in pp.conds:
+        for t, pol in pp.atoms():
+            if t[0] == "compare" and t[1] == ("<=", "<=") and not pol and t[2] == (("const", 0), n_int, ("const", 4294967295)):
+                guard_ok = True
+            if t[0] == "compare" and t[1] == ("<=", "<") and not pol and t[2] == (("const", 0), n_int, ("const", 4294967296)):
+                guard_ok = True
             if t[0] == "boolop" and t[1] == "or" and pol:
                 lo_ok = any(x == ("compare", ("<",), (n_int, ("const", 0))) for x in t[2])
                 hi_ok = any(x in (("compare", (">",), (n_int, ("const", 4294967295))), ("compare", (">=",), (n_int, ("const", 4294967296)))) for x in t[2])
@@ -435,20 +439,36 @@ def c11(ctx, rep):
             rep.fail("C11.interval-shape", f.name, "return %s outside the boundary loop: unrecognised" % show(r), w)
             continue
         li = fp.loops[inloop[0][1]]
-        hi = ("loopvar", li.uid, li.iter, ())
-        it_ok = li.iter == ("attr", SELF, "_AS_NUM_BOUNDARIES") or li.iter == ("attr", ("global", f.module.name, cls.name), "_AS_NUM_BOUNDARIES")
-        rep.ob("C11.loop-over-table", f.name, it_ok, "loop iterates %s; expected the boundary table in order" % show(li.iter), w)
+        table_terms = (("attr", SELF, "_AS_NUM_BOUNDARIES"), ("attr", ("global", f.module.name, cls.name), "_AS_NUM_BOUNDARIES"))
+        lo = None
+        if M.is_call(li.iter) and li.iter[1] == ("builtin", "zip") and len(li.iter[2]) == 2 and not li.iter[3]:
+            # form B: for lo, hi in zip([0] + table[:-1], table)
+            L, B = li.iter[2]
+            hi = ("loopvar", li.uid, li.iter, (1,))
+            it_ok = B in table_terms
+            prevs = False
+            if L[0] == "binop" and L[1] == "+" and L[2] == ("list", (("const", 0),)):
+                rest = L[3]
+                if M.builtin_call(rest, "list", 1):
+                    rest = rest[2][0]
+                prevs = M.drop_last(rest) is not None and M.drop_last(rest) in table_terms
+            rep.ob("C11.loop-over-table", f.name, it_ok, "loop pairs boundaries from %s; expected the boundary table in order" % show(B), w)
+            if prevs:
+                lo = ("loopvar", li.uid, li.iter, (0,))
+            rep.ob("C11.previous-boundary", f.name, lo is not None, "the paired lower bounds are [0] + table[:-1] (each boundary's predecessor, 0 first): %s" % show(L), w, key="C11.previous-boundary|_generate_as_number_replacement")
+        else:
+            hi = ("loopvar", li.uid, li.iter, ())
+            it_ok = li.iter in table_terms
+            rep.ob("C11.loop-over-table", f.name, it_ok, "loop iterates %s; expected the boundary table in order" % show(li.iter), w)
+            # lo = loop-carried previous boundary, initially 0
+            for n, (pre, posts) in li.carried.items():
+                if pre == ("const", 0) and posts and all(x == hi for x in posts):
+                    lo = ("carried", n, li.uid)
+            rep.ob("C11.previous-boundary", f.name, lo is not None, "a loop-carried variable holds the previous boundary (initially 0, set to the current boundary at the end of every iteration): %s" % {n: (show(v[0]), [show(x) for x in v[1]]) for n, v in li.carried.items()}, w, key="C11.previous-boundary|_generate_as_number_replacement")
         # selection condition: n < hi (strict)
         sel = [(t, pol) for t, pol, _ in pp.conds if t[0] == "compare" and hi in t[2]]
         sel_ok = len(sel) == 1 and ((sel[0][0] == ("compare", ("<",), (n_int, hi)) and sel[0][1]) or (sel[0][0] == ("compare", (">",), (hi, n_int)) and sel[0][1]) or (sel[0][0] == ("compare", (">=",), (n_int, hi)) and not sel[0][1]))
         rep.ob("C11.block-selection", f.name, sel_ok, "block selected by %s; expected the first boundary with number < boundary (strict)" % [(show(t), pol) for t, pol in sel], w, key="C11.block-selection|_generate_as_number_replacement")
-        # lo = loop-carried previous boundary, initially 0
-        carried = [(n, v) for n, v in li.carried.items()]
-        lo = None
-        for n, (pre, posts) in li.carried.items():
-            if pre == ("const", 0) and posts and all(x == hi for x in posts):
-                lo = ("carried", n, li.uid)
-        rep.ob("C11.previous-boundary", f.name, lo is not None, "a loop-carried variable holds the previous boundary (initially 0, set to the current boundary at the end of every iteration): %s" % {n: (show(v[0]), [show(x) for x in v[1]]) for n, v in li.carried.items()}, w, key="C11.previous-boundary|_generate_as_number_replacement")
         if lo is None:
             continue
         # result = str(h % (hi - lo) + lo)
